@@ -141,6 +141,16 @@ class C18(Check):
             prog = "BEGIN { print \"A\"\n printf(\"%s\"%s)\n print \"Z\" }" % (fmt, src_args)
             cases.append(Case("fl%d" % k, simple_run("fl%d" % k, prog), {"prog": prog, "fmt": fmt, "args": repr(args), "family": "flag orderings"},
                               len(spec) >= 3))
+        # padding next to a sign: every directive x zero / space padding x both alignments x negative, zero, tiny, huge numbers
+        # (the padding goes in front of the whole rendering, sign included)
+        k = 0
+        for d, vals in (("f", [-4.5, -12, -0.001, -0.0, 0, 7, -1e21, 123456789]), ("v", [-4.5, -12, [-1], None, True]), ("s", ["-x", "-", "+5"])):
+            for w in ("06", "08", "012", "-06", "-012", "6", "-6", "01", "2"):
+                for a in vals:
+                    fmt = "[%" + w + d + "]"
+                    prog = "BEGIN { print \"A\"\n printf(\"%s\", %s)\n print \"Z\" }" % (fmt, pyref.literal(a))
+                    cases.append(Case("sg%d" % k, simple_run("sg%d" % k, prog), {"prog": prog, "fmt": fmt, "args": repr([a]), "family": "padding next to a sign"}, True))
+                    k += 1
         return cases
 
     def oracle(self, case, impl):
